@@ -95,13 +95,15 @@ func resultTypes(sig *types.Signature) []types.Type {
 
 func (f *Frame) encodeCall(x ssa.Value, cc *ssa.CallCommon, st *State) {
 	e := f.enc
+	if b, ok := cc.Value.(*ssa.Builtin); ok {
+		// builtins keep no reference to their arguments (what append stores was stored into the
+		// variadic array before, and counted there)
+		f.encodeBuiltin(x, b, cc, st)
+		return
+	}
 	// escaping arguments
 	for _, a := range cc.Args {
 		f.markEscape(a)
-	}
-	if b, ok := cc.Value.(*ssa.Builtin); ok {
-		f.encodeBuiltin(x, b, cc, st)
-		return
 	}
 	sig := cc.Signature()
 	var args []*Val
@@ -853,7 +855,7 @@ func (f *Frame) encodeAppend(x ssa.Value, cc *ssa.CallCommon, st *State) {
 		f.reach[f.curBlock] = and(save, wr)
 		f.noteRawWrite(st, "(s.arr "+s.T+")", "append("+describeValue(cc.Args[0], 0)+")", cc.Args[0])
 		f.reach[f.curBlock] = save
-	} else {
+	} else if r := rootAlloc(cc.Args[0]); r == nil || f.hasEscaped(r) || valueParent(r) != f.fn {
 		f.enc.bumpTok(st)
 	}
 	e.heapSet(st, n, hs, store(h, resArr, newA))
